@@ -56,6 +56,7 @@ def run(R):
         if alg == "blake2b":
             base["outlen"] = 64
         use(behs, [base], per, "hmac")
+        use(behs, [dict(base, key=key("hmacB" + alg, b))], max(2, per // 3), "hmac-blockkey")     # a key of exactly one block (used as is, not hashed)
     behs = gen(R, "poly", 16, depth, [0, 1, 15, 16, 17, 32, 33], 2)
     use(behs, [{"cls": "mac", "mac": "poly1305", "key": key("poly", 32)}, {"cls": "mac", "mac": "poly1305", "key": [255] * 32}], per * 2, "poly1305")
     for alg, (b, mo, mk) in hc.BLAKE.items():
